@@ -25,7 +25,7 @@ MANIFEST = dict(
               "TLC trace validation (TraceJournal.tla)")
 
 DEVS = ["Dev_RevertVersionGapPanics", "Dev_UndoFirstEquityPanics", "Dev_UndoCodeDropsPreviousCode",
-        "Dev_UndoSuicideShallow", "Dev_UndoEventNoop"]
+        "Dev_UndoSuicideShallow", "Dev_UndoEventNoop", "Dev_MergeAcrossSuicide", "Dev_WorthlessSuicideDropped"]
 
 
 def setcfg(ctx, cfg, out, **kv):
@@ -50,51 +50,67 @@ def fix_sim_labels(pattern):
 def run(ctx):
     ctx.build()
     quick = ctx.quick()
-    depth = dict(Contract=5, Hold=5, Asset=5, Cand=4, Two=5) if quick else dict(Contract=7, Hold=6, Asset=6, Cand=5, Two=6)
-    limit = 2500 if quick else 0
+    depth = dict(Contract=4, Hold=4, Asset=4, Cand=3, Two=4, Nest=8) if quick else dict(Contract=5, Hold=5, Asset=5, Cand=4, Two=5, Nest=10)
+    limit = 0
+    pool = concurrent.futures.ThreadPoolExecutor(16)    # >= number of TLC runs: all start at their own offset
+
     # ---- design side: the clauses hold on the design (all deviations off) ...
-    graphs = {}
-    for g, d in depth.items():
-        cfg = setcfg(ctx, "MCJournal_%s.cfg" % g, "MCJournal_%s.run.cfg" % g, **{"MaxSteps = 6": "MaxSteps = %d" % d})
+    def design(i_g):
+        i, g = i_g
+        time.sleep(0.1 * i)     # distinct TLC metadirs (named by millisecond)
+        cfg = setcfg(ctx, "MCJournal_%s.cfg" % g, "MCJournal_%s.run.cfg" % g, **{"MaxSteps = 6": "MaxSteps = %d" % depth[g]})
         dot = ctx.path("dot", g + ".dot")
-        ctx.tlc_exhaustive("MCJournal", cfg, timeout=900, dump=dot)
-        graphs[g] = dot
-    # ... and each deviation switched on violates them (negative controls, run concurrently)
+        ctx.tlc_exhaustive("MCJournal", cfg, timeout=900, dump=dot, workers=4)
+        return g, dot
+
+    # ... and each deviation switched on violates them (negative controls)
     def neg(i_dev):
         i, dev = i_dev
-        time.sleep(0.05 * i)    # distinct TLC metadirs
-        kinds = "KindsNegGap" if dev == "Dev_RevertVersionGapPanics" else "KindsNeg"
-        cfg = setcfg(ctx, "MCJournal_Neg.cfg", "MCJournal_Neg.%s.cfg" % dev, **{"@DEV@": dev, "@KINDS@": kinds})
+        time.sleep(0.1 * (i + len(depth)))
+        gap = dev == "Dev_RevertVersionGapPanics"
+        cfg = setcfg(ctx, "MCJournal_Neg.cfg", "MCJournal_Neg.%s.cfg" % dev,
+                     **{"@DEV@": dev, "@KINDS@": "KindsNegGap" if gap else "KindsNeg", "@STEPS@": 7 if gap else 5})
         r = ctx.tlc("MCJournal", cfg, timeout=600, expect_ok=False, workers=2)
         return dev, r["inv"]
-    with concurrent.futures.ThreadPoolExecutor(len(DEVS)) as ex:
-        negs = dict(ex.map(neg, enumerate(DEVS)))
+
+    fd = [pool.submit(design, x) for x in enumerate(depth)]
+    fn = [pool.submit(neg, x) for x in enumerate(DEVS)]
+    graphs = dict(f.result() for f in fd)
+    negs = dict(f.result() for f in fn)
     ctx.extra["negative_controls_model_violates"] = negs
     for dev, inv in negs.items():
         if not inv:
             raise vlib.Broken("negative control: the model with %s on should violate a clause" % dev)
     ctx.log("negative controls: %s" % negs)
+
     # ---- spec -> code -> spec: every edge of every state graph on the real manager
+    def rep(g):
+        return g, ctx.replay("journal", graph=graphs[g], shards=6 if quick else 12, maxlen=14, limit=limit, name="journal-" + g)
+    reps = dict(pool.map(rep, list(graphs))) if quick else dict(rep(g) for g in graphs)
     edges = replayed = 0
-    for g, dot in graphs.items():
-        files, summ = ctx.replay("journal", graph=dot, shards=16, maxlen=12, limit=limit, name="journal-" + g)
-        ok = ctx.validate("TraceJournal", "TraceJournal.cfg", files, what="state graph %s" % g, timeout=1800)
+    allfiles = []
+    for g, (files, summ) in reps.items():
         edges += summ["graph_edges"]
-        if ok and not limit:
+        if quick:
+            allfiles += files
+        elif ctx.validate("TraceJournal", "TraceJournal.cfg", files, what="state graph %s" % g, timeout=3000):
             replayed += summ["graph_edges"]
-        if not ctx.cov["samples"]:
-            ctx.cov["samples"] = summ["samples"]
+        if len(ctx.cov["samples"]) < 3:
+            ctx.cov["samples"] += summ["samples"][:1]
+    if quick and ctx.validate("TraceJournal", "TraceJournal.cfg", allfiles, what="state graphs %s" % " ".join(graphs), timeout=1800):
+        replayed = edges
     ctx.extra["transitions_in_graphs"] = edges
-    ctx.extra["distinct_transitions_replayed"] = replayed if not limit else "seeded subset: %d behaviours per graph" % limit
-    ctx.cov["exhaustive"] = not limit
-    # ---- long random behaviours of the full model (2 accounts, all setter kinds, nesting 3, any values)
-    num, dep = (400, 20) if quick else (6000, 24)
+    ctx.extra["distinct_transitions_replayed"] = replayed
+    ctx.extra["graph_depths"] = depth
+    ctx.cov["exhaustive"] = True
+    # ---- long random behaviours of the full model (2 accounts, all 17 setter kinds, nesting 3, any values, Seal)
+    num, dep = (500, 20) if quick else (16000, 28)
     sim = ctx.tlc_simulate("MCJournal", "MCJournal_All.cfg", num, dep, "all", timeout=900)
     fix_sim_labels(sim)
     files, summ = ctx.replay("journal", sim=sim, shards=16, name="journal-sim")
-    ctx.validate("TraceJournal", "TraceJournal.cfg", files, what="simulated behaviours of the full model", timeout=1800)
+    ctx.validate("TraceJournal", "TraceJournal.cfg", files, what="simulated behaviours of the full model", timeout=3000)
     ctx.assumptions += [
         "universe: a contract account c and a user account u; 2 storage slots, 1 asset code, 1 asset id, 1 equity id, 2 profile keys; values from 3-element domains",
         "sequences are those transactions can issue: self-destruct only on a live account (opSuicide), an asset code is created once, supply/profile only of an existing asset, asset codes/candidate/votes/signers only on the user account",
         "an absent entry and an entry holding the empty string are the same observable (the getters of the profile maps cannot tell them apart; asset-id metadata likewise after Finalise); the zero hash and keccak('') both mean 'no code' (isEmptyHash)",
-        "one block per behaviour on top of a committed parent state (empty or populated through a real Finalise/Save)"]
+        "one block per behaviour on top of a committed parent state (empty or populated through a real Finalise/Save); redo = Manager.RebuildAll of the block's published logs followed by Finalise"]
